@@ -217,6 +217,13 @@ func runGuardedRules(p *Program, id string) ([]*Gen, []string) {
 					if !ok {
 						continue
 					}
+					if w := kv["when"]; w != "" {
+						// `when=PATTERN`: only stores whose stored value matches (e.g. the constant true)
+						st, isSt := in.(*ssa.Store)
+						if !isSt || !pathMatches(valuePath(st.Val), w) {
+							continue
+						}
+					}
 					n++
 					o := &Oblig{Name: fmt.Sprintf("%s.%s#guarded:%s.%d", kv["in"], kv["func"], name, n), Kind: "guarded", Goal: "true", Pre: "unsat", AutoSite: true,
 						Pos:  strings.TrimPrefix(p.Fset.Position(in.Pos()).String(), p.Repo+"/"),
